@@ -20,6 +20,17 @@ import (
 	"verif/harness/hk"
 )
 
+// tooManyStalls: when the tree is so broken that case after case runs into the watchdog,
+// the rest of a long family is skipped (reported as one inconclusive case)
+func tooManyStalls(family string, k, n int) bool {
+	if stalledCases.Load() < 10 || hk.Only() != "" {
+		return false
+	}
+	hk.Emit(hk.Case{ID: fmt.Sprintf("%s/skipped-from-%d", family, k), Scenario: "skipped", Verdict: hk.Inconclusive,
+		What: fmt.Sprintf("watchdog: %d cases ran out of their waiting budget; cases %d..%d of family %s skipped", stalledCases.Load(), k, n-1, family)})
+	return true
+}
+
 func main() {
 	hk.InstallHook()
 	hk.Rule("name-linearizability L/k: 1-3 names x 3-6 client goroutines x 8-21 seeded random operations (Node.RegisterName, Process.RegisterName, SpawnRegister, Node/Process.UnregisterName, terminate by kill/exit/normal, resolve by send or Call) over processes dedicated to one name, seeded delays at the yield points of unregisterProcess/Kill/run (odd k: also inside RegisterName/UnregisterName); non-trivial iff >=2 claim operations of one name overlapped in time; event-linearizability E/k the same for one event name with tokens. one-winner W/WE: n claimers released together from a gate, non-trivial iff >=2 claim intervals overlapped. directed D: an operation parked at a yield point (or inside a callback) while the process terminates completely, non-trivial iff the gate fired. release R/cause/shape: subject with name+aliases+events+meta-processes, linked/monitored by observers and linking/monitoring another process, terminated by each cause; non-trivial iff >=1 name, alias, event, meta and >=1 relation in each role. alias-sequences A: every create/delete order up to 4 aliases. ids I: everything minted is kept and compared exactly. distinct = scenario x parameters x observed overlap class")
@@ -63,14 +74,14 @@ func main() {
 	}
 	if fam("L") {
 		nl := hk.Pick(400, 8000)
-		for k := 0; k < nl; k++ {
+		for k := 0; k < nl && !tooManyStalls("L", k, nl); k++ {
 			runNameLin(k)
 		}
 		lap("name-linearizability")
 	}
 	if fam("E") {
 		ne := hk.Pick(400, 8000)
-		for k := 0; k < ne; k++ {
+		for k := 0; k < ne && !tooManyStalls("E", k, ne); k++ {
 			runEventLin(k)
 		}
 		lap("event-linearizability")
